@@ -11,7 +11,7 @@ from . import ptgen
 from .ptgen import random_type, random_pt, ty_numel
 from .common import enc_list, Toks, dec_ext
 
-RULE = ('einsum signatures: 0..3 operands of 0..3 dims over <= 4 index letters (repeated letters inside one operand excluded, as in the library), '
+RULE = ('einsum signatures: 0..3 operands of 0..3 dims over <= 4 index letters (incl. a letter repeated inside one operand: trace / diagonal), '
         'random output list (subset of the letters, any order); one index type per letter (depth <= 2, sizes {0,1,2,3}), operands = typed random '
         'patterns incl. broadcast (expand) operands and shared physical axes; x 4 semirings x requires_grad; mv/mm shorthands; '
         'non-trivial = some operand is not dense and at least one index is summed out')
@@ -28,7 +28,12 @@ def gen_job(rng):
     ops = []
     for _ in range(nops):
         nd = rng.randint(0, min(3, len(letters)))
-        ops.append(rng.sample(letters, nd))
+        ix = rng.sample(letters, nd)
+        if nd >= 2 and rng.random() < 0.15:
+            # the same index at two axes of one operand (trace / diagonal: 'ii->', 'iij,j->i'): the two axes are unified
+            i, j = rng.sample(range(nd), 2)
+            ix[j] = ix[i]
+        ops.append(ix)
     used = sorted({l for ix in ops for l in ix})
     out = rng.sample(used, rng.randint(0, len(used))) if used else []
     return types, ops, out
